@@ -872,7 +872,7 @@ func (c *Ctx) errorDisciplineOn(rule, fname string, info *types.Info, g *cfgx.Gr
 				}
 				if fn := astx.Callee(info, call); fn != nil && fn.Pkg() != nil {
 					switch fn.Pkg().Path() {
-					case "log", "fmt", "github.com/golang/glog":
+					case "log", "fmt", "github.com/golang/glog", "github.com/stapelberg/glog":
 						return false
 					}
 				}
